@@ -253,3 +253,63 @@ def rule_algid(ctx, prop: str) -> RuleResult:
         raise AnalysisError(f"ALGID: only {n_tot} identities extracted from the simplifier(s) — idioms changed, checker blind")
     res.floor = 8
     return res
+
+
+def rule_zeroshort(ctx, prop: str) -> RuleResult:
+    """Small IR-building helpers `f(a, b)` whose general case is `LoopIR.BinOp(op, a, b, ...)` take
+    shortcuts when an operand is the literal 0.  The shortcut must be the identity of THAT operator:
+    0 + b = b,  a + 0 = a,  a - 0 = a  (and nothing for 0 - b).  Returning the zero operand itself
+    (`if a is 0: return a`) drops the other term: chained window offsets lose the inner offset and the
+    bounds checker checks t[0 + i] while the generated code addresses t[off + i]."""
+    ix = ctx.ix
+    res = RuleResult("ZEROSHORT")
+    files = ("src/exo/core/LoopIR.py", "src/exo/rewrite/LoopIR_scheduling.py", "src/exo/frontend/typecheck.py", "src/exo/rewrite/LoopIR_unification.py")
+    n_helpers = 0
+    for f in sorted((g for g in ix.all_funcs() if g.file in files and isinstance(g.node, ast.FunctionDef)), key=lambda g: (g.file, g.lineno)):
+        ps = [a for a in f.params() if a != "self"]
+        if len(ps) != 2:
+            continue
+        body = f.node.body
+        last = body[-1] if body else None
+        if isinstance(last, ast.If) and last.orelse and isinstance(last.orelse[-1], ast.Return):
+            final = last.orelse[-1]
+        else:
+            final = last
+        if not (isinstance(final, ast.Return) and isinstance(final.value, ast.Call) and dotted(final.value.func) == "LoopIR.BinOp" and len(final.value.args) >= 3):
+            continue
+        a = final.value.args
+        if not (isinstance(a[0], ast.Constant) and a[0].value in ("+", "-") and ast.unparse(a[1]) == ps[0] and ast.unparse(a[2]) == ps[1]):
+            continue
+        op = a[0].value
+        n_helpers += 1
+        res.analysed.append(f"{f.file}:{f.qualname}")
+        for n in f.body_nodes():
+            if not isinstance(n, ast.If):
+                continue
+            t = ast.unparse(n.test)
+            zero_of = None
+            for p_ in ps:
+                if f"isinstance({p_}, LoopIR.Const)" in t and f"{p_}.val == 0" in t:
+                    zero_of = p_
+            if zero_of is None:
+                continue
+            rets = [k for k in n.body if isinstance(k, ast.Return) and isinstance(k.value, ast.Name)]
+            if not rets:
+                continue
+            res.instances += 1
+            res.nontrivial += 1
+            other = ps[1] if zero_of == ps[0] else ps[0]
+            got = rets[0].value.id
+            ok = got == other and not (op == "-" and zero_of == ps[0])
+            res.ob(ok)
+            res.sample(f"{f.qualname}: `{zero_of}` is 0 under `{op}` -> returns `{got}`: {ok}")
+            if not ok:
+                res.add(Finding("ZEROSHORT", f.file, rets[0].lineno, f.qualname, f"zero:{op}:{'lhs' if zero_of == ps[0] else 'rhs'}->{'same' if got == zero_of else got}",
+                                f"{f.qualname}({ps[0]}, {ps[1]}) builds `{ps[0]} {op} {ps[1]}`; when `{zero_of}` is the literal 0 it returns `{got}`"
+                                + (" — the zero itself, so the other term is dropped" if got == zero_of else "")
+                                + (": a window of a window whose first level starts at 0 loses the second-level offset in its chained index; the bounds checker then checks t[0 + i] "
+                                   "while the generated code addresses t[off + i]" if "add" in f.qualname or "chain" in f.qualname else ": the built expression denotes a different value")))
+    if n_helpers < 2:
+        raise AnalysisError(f"ZEROSHORT: expected the zero-shortcut helpers add_e / subtract of core/LoopIR.py, found {n_helpers}")
+    res.floor = 3
+    return res
